@@ -99,6 +99,12 @@ def rand_ip(rng, n):
 def rand_value_raw(rng, depth=0):
     """a random well-formed RLP item (string or nested list)"""
     r = rng.random()
+    if r < 0.12 and depth < 2:
+        # a byte string whose payload is itself the encoding of an item (must stay an opaque string)
+        inner = rand_value_raw(rng, depth + 1)
+        if rng.random() < 0.3:
+            inner = enc_str([rng.randrange(1, 256)] + rand_bytes(rng, 7))      # 9-byte payload holding an 8-byte string
+        return enc_str(inner)
     if r < 0.65 or depth >= 2:
         n = rng.choice([0, 1, 1, 2, 3, 4, 8, 16, 20, 32, 33, 55, 56, 57, 60])
         s = rand_bytes(rng, n)
@@ -138,7 +144,11 @@ def port_raw(rng):
 
 def client_raw(rng):
     n = rng.choice([2, 3, 2, 3, 0, 1, 4])
-    return enc_list([enc_str(B(rng.choice(["Nethermind", "geth", "x", "", "lighthouse-v5.1.3"]))) for _ in range(n)])
+    names = [B("Nethermind"), B("geth"), B("x"), [], B("lighthouse-v5.1.3"), [0x47, 0xe9, 0x74, 0x68], [0xff, 0xfe], [0xde, 0xad, 0xbe, 0xef], [0xc3, 0x28]]
+    l = enc_list([enc_str(rng.choice(names)) for _ in range(n)])
+    if rng.random() < 0.1:
+        return enc_str(l)          # the list wrapped in a byte string: not a client entry
+    return l
 
 
 def rand_pairs(rng, signer, extra_reserved=True, max_custom=3, budget=150):
@@ -191,6 +201,10 @@ def rand_record(rng, signer=None, scheme=None):
         scheme = scheme or rng.choice(["secp", "secp", "ed"])
         signer = rng.choice(SECP_SIGNERS if scheme == "secp" else ED_SIGNERS)
     seq = rand_seq(rng)
+    if rng.random() < 0.12:
+        # the smallest possible records: id and the public key only, short sequence number
+        seq = rng.choice([[], [1], [127], [128], [255, 255]])
+        return {"seq": seq, "pairs": rand_pairs(rng, signer, extra_reserved=False, max_custom=0), "by": signer}
     pairs = rand_pairs(rng, signer)
     while rec_len(seq, pairs) > 300:
         pairs = rand_pairs(rng, signer, max_custom=1)
@@ -265,6 +279,24 @@ def gen_auth(rng, n_records, sweep_stride=1, kts=KT_ALL):
         p4 = [[k, (enc_str(KEYS[wrong[0]]["pk"]) if bytes(k) == pk_key(rec["by"]).encode() else v)] for k, v in rec["pairs"]]
         tam.append(("pk_swapped", {"rec": {"seq": rec["seq"], "pairs": p4,
                                            "sig": {"by": rec["by"], "over": items_of(rec)}}}))
+        # pairs added to / duplicated in the encoding while the signature still covers the original content
+        orig = items_of(rec)
+        j = rng.randrange(len(rec["pairs"]))
+        kj = rec["pairs"][j][0]
+        junk = enc_str(rand_bytes(rng, 4)) if bytes(kj) != b"ip" else enc_str(rand_bytes(rng, 4))
+        if bytes(kj) in (b"tcp", b"tcp6", b"udp", b"udp6"):
+            junk = enc_uint(rng.randrange(65536))
+        elif bytes(kj) == b"ip6":
+            junk = enc_str(rand_bytes(rng, 16))
+        elif bytes(kj) == b"id":
+            junk = enc_str(B("v4"))
+        elif bytes(kj) in (b"secp256k1", b"ed25519"):
+            junk = enc_str(KEYS[wrong[0]]["pk"])
+        dup_before = rec["pairs"][:j] + [[kj, junk]] + rec["pairs"][j:]
+        dup_after = rec["pairs"][:j + 1] + [[kj, junk]] + rec["pairs"][j + 1:]
+        extra = sorted(rec["pairs"] + [[B("zzextra"), enc_str([1, 2, 3])]], key=lambda p: bytes(p[0]))
+        for tag, ps in [("unsigned_duplicate_before", dup_before), ("unsigned_duplicate_after", dup_after), ("unsigned_extra_pair", extra)]:
+            tam.append((tag, {"rec": {"seq": rec["seq"], "pairs": ps, "sig": {"by": rec["by"], "over": orig}}}))
         for n in [0, 1, 32, 63, 65, 66, 96, 128]:
             tam.append(("siglen_%d" % n, recspec(rec, sig={"len": n})))
         tam.append(("sig_as_list", recspec(rec, sig={"as": "l"})))
@@ -361,12 +393,19 @@ def struct_mutations(rng, rec):
         for tag, v in [("pk_33_zero", enc_str([0] * 33)), ("pk_02_ff", enc_str([2] + [255] * 32)),
                        ("pk_32_bytes", enc_str(KEYS[by]["pk"][:32])), ("pk_34_bytes", enc_str(KEYS[by]["pk"] + [0])),
                        ("pk_prefix_04", enc_str([4] + KEYS[by]["pk"][1:])), ("pk_empty", enc_str([])),
+                       ("pk_64_raw_xy", enc_str(KEYS[by].get("xy", [0] * 64))), ("pk_65_uncompressed", enc_str([4] + KEYS[by].get("xy", [0] * 64))),
+                       ("pk_65_hybrid", enc_str([6 + (KEYS[by].get("xy", [0] * 64)[63] & 1)] + KEYS[by].get("xy", [0] * 64))),
                        ("pk_list", enc_list([enc_str(KEYS[by]["pk"])]))]:
             out.append((tag, mk(pk_with(v))))
         # a record that carries only an ed25519 key (signed with the secp key): no key type may accept
         onlyed = sorted(nopk + [[B("ed25519"), enc_str(KEYS["e1"]["pk"])]], key=lambda p: bytes(p[0]))
         out.append(("only_other_scheme_key", mk(with_pairs(onlyed))))
     else:
+        # small-order public key with the trivial signature R = identity, S = 0 (verifies under the non-strict rule)
+        ident = [1] + [0] * 31
+        so = sorted([p for p in nopk] + [[pkk, enc_str(ident)]], key=lambda p: bytes(p[0]))
+        out.append(("ed_small_order_key_trivial_sig", {"rec": {"items": with_pairs(so), "sig": {"raw": ident + [0] * 32}}}))
+        out.append(("ed_small_order_key_signed", mk(with_pairs(so))))
         for tag, v in [("pk_31_bytes", enc_str(KEYS[by]["pk"][:31])), ("pk_33_bytes", enc_str(KEYS[by]["pk"] + [0])),
                        ("pk_empty", enc_str([])), ("pk_list", enc_list([enc_str(KEYS[by]["pk"])]))]:
             out.append((tag, mk(pk_with(v))))
@@ -471,9 +510,11 @@ def gen_prefix(rng, n, kts=KT_ALL):
         other = rand_record(rng)
         muts = struct_mutations(rng, rec)
         steps = []
-        cands = [("valid", recspec(rec))] + [m for m in rng.sample(muts, 6) if "raw" not in m[1]]
+        mini_signer = rng.choice(SECP_SIGNERS + ED_SIGNERS)
+        mini = {"seq": rng.choice([[], [1], [200]]), "pairs": rand_pairs(rng, mini_signer, extra_reserved=False, max_custom=0), "by": mini_signer}
+        cands = [("valid", recspec(rec)), ("valid_minimal", recspec(mini))] + [m for m in rng.sample(muts, 6) if "raw" not in m[1]]
         for tag, spec in cands:
-            for sn in rng.sample([1, 2, 3, 50, 166, 167, 200, 300, 1000], 3):
+            for sn in rng.sample([1, 2, 3, 4, 5, 50, 166, 167, 200, 300, 1000], 4):
                 kind = rng.choice(["zeros", "random", "record", "truncated"])
                 if kind == "zeros":
                     sfx = {"raw": [0] * sn}
@@ -502,6 +543,15 @@ def gen_prefix(rng, n, kts=KT_ALL):
             bad[j] = m
             steps.append({"op": "decode_stream", "kt": kt, "input": {"concat": bad}, "tag": "stream_bad_%s" % tag})
             steps.append({"op": "decode_list", "kt": kt, "input": {"list": bad}, "tag": "list_bad_%s" % tag})
+            # a tampered copy (other value, same sequence number and signature) right after its original
+            base = recs[0]
+            cp = [list(p) for p in base["pairs"]] + [[B("zzt"), enc_str([7])]]
+            cp.sort(key=lambda p: bytes(p[0]))
+            forged = {"rec": {"seq": base["seq"], "pairs": cp, "sig": {"by": base["by"], "over": items_of(base)}}}
+            steps.append({"op": "decode_stream", "kt": kt, "input": {"concat": [specs[0], forged] + specs[1:2]}, "tag": "stream_forged_copy"})
+            steps.append({"op": "decode_list", "kt": kt, "input": {"list": [specs[0], forged]}, "tag": "list_forged_copy"})
+            steps.append({"op": "decode", "kts": [kt], "input": specs[0], "tag": "valid"})
+            steps.append({"op": "decode", "kts": [kt], "input": forged, "tag": "forged_copy_after_original"})
             # trailing garbage after a list / a stream
             steps.append({"op": "decode_list", "kt": kt, "input": {"concat": [{"list": specs[:2]}, {"raw": rand_bytes(rng, 5)}]}, "tag": "list_suffix"})
         out.append({"sid": sid(), "steps": steps})
@@ -727,7 +777,12 @@ def gen_hist(rng, n, length=(8, 30), kts=HIST_KTS, full_every=5, faults=True, ha
         same = [s for s in sigs if scheme_of(s) == sch and s != own]
         steps = []
         if rng.random() < 0.5:
-            steps.append({"op": "build", "h": "r", "kt": kt, "signer": own, "calls": builder_calls(rng, hard)})
+            b = {"op": "build", "h": "r", "kt": kt, "signer": own, "calls": builder_calls(rng, hard)}
+            if rng.random() < 0.4:
+                # the same builder is used for a second build (after further calls)
+                b["rebuild"] = True
+                b["calls2"] = builder_calls(rng, hard)[:2] if rng.random() < 0.6 else []
+            steps.append(b)
             # make sure there is a record to work on
             steps.append({"op": "build", "h": "r", "kt": kt, "signer": own, "calls": [{"m": "udp4", "port": 9000}], "ifmissing": True})
         else:
@@ -875,8 +930,9 @@ def gen_seq(rng, kts=("k256", "libsecp", "ed", "comb"), seqs=None, calls_per=Non
             out.append({"sid": sid(), "steps": steps})
         # builder -> encode -> decode with random 64-bit sequence numbers
         steps = []
-        for _ in range(24):
-            steps.append({"op": "build", "h": "b", "kt": kt, "signer": own, "obs": "full", "calls": [{"m": "seq", "seq": rand_seq(rng)}, {"m": "udp4", "port": 1}]})
+        for sq in [[255] * 8, [255] * 7 + [254], [1] + [0] * 7, [1] + [0] * 6, [255] * 7, [128] + [0] * 7] + [rand_seq(rng) for _ in range(18)]:
+            steps.append({"op": "build", "h": "b", "kt": kt, "signer": own, "obs": "full", "calls": [{"m": "seq", "seq": sq}, {"m": "udp4", "port": 1}],
+                          "rebuild": rng.random() < 0.3, "calls2": []})
         out.append({"sid": sid(), "steps": steps})
     return out
 
